@@ -1,2 +1,41 @@
-Theorem C04_placeholder : True. Proof. exact I. Qed.
-Print Assumptions C04_placeholder.
+(* C04 — no program can corrupt or crash the simulator.
+   Statements about the literal model Sim.v (every Go panic site is an explicit
+   Panic; uint64 wrap-around is modelled, so limits above the core size are
+   covered).  Inv is the invariant; bsteps runs any sequence of AddWarrior /
+   SpawnWarrior / RunCycle / Run calls. *)
+From GM Require Import Base Exec Sim VmArith C01Phase InvExec InvSim.
+Open Scope N_scope.
+
+(* a configuration is refused, or creation yields a state satisfying the invariant *)
+Theorem C04_create_total :
+  forall cfg, c_cycles cfg < two64 ->
+    new_sim cfg = None \/ exists s, new_sim cfg = Some s /\ Inv s.
+Proof. exact new_sim_inv. Qed.
+Print Assumptions C04_create_total.
+
+(* from any state satisfying the invariant, no sequence of operations loading
+   well-formed code panics, and the invariant holds afterwards; in particular
+   after every cycle of every battle, whatever the limits, offsets and code *)
+Theorem C04_inv_reachable :
+  forall ops s, Inv s -> Forall (bop_wf (s_m s)) ops ->
+    match bsteps s ops with Panic => False | Ok s' => Inv s' end.
+Proof. exact bsteps_inv. Qed.
+Print Assumptions C04_inv_reachable.
+
+(* one task, for all limits: fields stay below M, queued program counters are below M *)
+Theorem C04_exec_preserves_wf :
+  forall M rl wl wi, 0 < M -> forall c pc, cwf M c -> pc < M ->
+    let '(c', pushes, _) := exec M rl wl wi c pc in
+    cwf M c' /\ Forall (fun x => x < M) pushes.
+Proof. exact exec_inv. Qed.
+Print Assumptions C04_exec_preserves_wf.
+
+(* the invariant is what the property lists *)
+Theorem C04_inv_observables :
+  forall s, Inv s ->
+    (forall a, a < s_m s -> i_a (get (s_mem s) a) < s_m s /\ i_b (get (s_mem s) a) < s_m s) /\
+    Forall (queue_ok (s_m s) (s_procs s)) (s_ws s) /\
+    s_cycle s <= s_cycles s /\
+    s_living s = Z.of_nat (length (filter alive (s_ws s))).
+Proof. exact inv_observables. Qed.
+Print Assumptions C04_inv_observables.
